@@ -21,6 +21,11 @@ merged['findings'] = list(ours['findings']) + [f for f in theirs['findings'] if 
 json.dump(merged, open('known_findings.json', 'w'), indent=1)
 sh('python3', 'tools/gen_root.py')
 sh('git', 'add', 'known_findings.json', 'lean/HcipyVerif.lean')
+# evidence files are rewritten by every run: keep ours on conflict
+rc, out = sh('git', 'diff', '--name-only', '--diff-filter=U')
+for f in out.split():
+    if f.startswith('evidence/'):
+        sh('git', 'checkout', '--ours', f); sh('git', 'add', f)
 rc, out = sh('git', 'diff', '--name-only', '--diff-filter=U')
 if out.strip():
     print('UNRESOLVED:', out); sys.exit(1)
